@@ -1,6 +1,6 @@
 (* The constants the model uses agree with the tables regenerated from /repo on this run. *)
 From Coq Require Import String.
-From MLPE Require Import gen.Tables Engine.Manager.
+From MLPE Require Import gen.Tables Pure.Retry.
 
 Definition nspec_with (a : option Z) (d : option nat) (e : option (list exc_cls)) : nspec :=
   {| ns_params := []; ns_mode := MGated; ns_attempts := a; ns_delay := d; ns_excs := e; ns_default := false |}.
